@@ -42,6 +42,35 @@ def check_filter(rep, specs, p, drop):
                                         'why': 'filter result / remainder is not the order-preserving partition'})
 
 
+def check_defaults_and_wrappers(rep, r):
+    """the documented defaults (drop=False; filter_errors on all three components, undefined not counted; duplicates by
+    instance for a TractList) and the PLSSDesc methods of the same names, which act on the description's tracts"""
+    text = r.choice(['T154N-R97W Sec 14: NE/4, Sec 15: W/2, Sec 14: NE/4\nT155N-R97W NE/4', 'Sec 5: ALL, T1N-R1W Sec 1: Lot 1, Sec 1: Lot 1',
+                     'T154N-R97W Sec 14: NE/4, Sec 101: W/2, Sec 14: S/2'])
+    d = pytrs.PLSSDesc(text, parse_qq=True)
+    for who, tl in (('TractList', d.tracts), ('PLSSDesc', d)):
+        objs = list(d.tracts)
+        def ok(got, want):
+            return ids(got) == ids(want) and ids(d.tracts) == ids(objs)
+        f = impl.pred_fn(r.choice(sorted(impl.PREDS)))
+        bad = None
+        if not ok(tl.filter(f), [o for o in objs if f(o)]):
+            bad = 'filter(key) with the default drop'
+        elif not ok(tl.filter_errors(), [o for o in objs if 'XXXz' in o.trs or o.trs.endswith('XX')]):
+            bad = 'filter_errors() with the default arguments'
+        elif not ok(tl.filter_duplicates(), []):
+            bad = 'filter_duplicates() with the default method (instance) and drop'
+        elif not ok(tl.filter_duplicates('trs'), [o for k, o in enumerate(objs) if o.trs in [x.trs for x in objs[:k]]]):
+            bad = "filter_duplicates('trs') with the default drop"
+        else:
+            g = tl.group_by('twprge')
+            if [k for k in g] != list(dict.fromkeys(o.twprge for o in objs)) or any(ids(v) != ids([o for o in objs if o.twprge == k]) for k, v in g.items()):
+                bad = "group_by('twprge')"
+        if bad:
+            rep.violation('failing-input', {'op': f'{who}.{bad}', 'text': text, 'why': 'result is not the documented one, or the receiver was changed although drop was not asked for'})
+        rep.count()
+
+
 def check_errors(rep, specs, twp, rge, sec, undef, drop):
     l, objs = impl.mklist(specs)
 
@@ -329,6 +358,7 @@ def run(ctx):
         if i % 10 == 0:
             safely(rep, 'construction', check_construction, r)
         if i % 2 == 0:
+            safely(rep, 'defaults and PLSSDesc wrappers', check_defaults_and_wrappers, r)
             # construction paths, model vs implementation: a container of either class, built / extended / appended /
             # inserted from tracts, TRS objects, strings and unacceptable objects
             is_trs = r.chance(1, 2)
